@@ -34,13 +34,38 @@ def guard_bypass(ctx, prog, R="C02.GUARD-bypass"):
     nonconst = [s for s in F.stmts() if s.dst is not None and s.dst.is_local() and s.dst.local == 0
                 and not (s.rv and "use" in s.rv and q.op_const(s.rv["use"]) is not None)]
     heap_sw = set()
+    admit = set()   # edges taken exactly when a height is <= the heap's minimum
+    is_heap = lambda x: x[0] == "call" and "recompute_heap::RecomputeHeap::" in x[1]
     for b in F.blocks:
         t = b["term"]
-        if t["k"] == "switch":
-            e = expr(F, t["on"], du)
-            if mentions(e, lambda x: x[0] == "call" and "recompute_heap::RecomputeHeap::" in x[1]):
-                heap_sw.add(b["id"])
-    ctx.site(R, F, "heap-consulting switches %s" % sorted(heap_sw))
+        if t["k"] != "switch":
+            continue
+        e = expr(F, t["on"], du)
+        neg = False
+        while e[0] == "un" and e[1] == "Not":
+            e, neg = e[2], not neg
+        if not mentions(e, is_heap):
+            continue
+        heap_sw.add(b["id"])
+        if e[0] != "bin":
+            continue
+        op, a, bb_ = e[1], e[2], e[3]
+        right = mentions(bb_, is_heap) and not mentions(a, is_heap)
+        left = mentions(a, is_heap) and not mentions(bb_, is_heap)
+        # `h <= min` / `h < min` / `min >= h` / `min > h` admit on true; the reversed forms admit on false
+        if (right and op in ("Le", "Lt")) or (left and op in ("Ge", "Gt")):
+            on_true = True
+        elif (right and op in ("Gt", "Ge")) or (left and op in ("Lt", "Le")):
+            on_true = False
+        else:
+            continue
+        if neg:
+            on_true = not on_true
+        for x in c.succ[b["id"]]:
+            is_false_edge = c.edge_values(b["id"], x) == [0]
+            if is_false_edge != on_true:
+                admit.add((b["id"], x))
+    ctx.site(R, F, "heap-consulting switches %s, admitting edges %s" % (sorted(heap_sw), sorted(admit)))
     if nonconst:
         ctx.fail(R, "shape", "parent_iter_can_recompute_now returns a computed value; the rule expects constant "
                  "true/false returns", fn=F, span=nonconst[0].span, kind="anchor")
@@ -51,12 +76,12 @@ def guard_bypass(ctx, prog, R="C02.GUARD-bypass"):
     okall = True
     for s in trues:
         ctx.site(R, F, "bb%d return true" % s.bb)
-        p = c.path([0], [s.bb], avoid=heap_sw)
+        p = c.path([0], [s.bb], avoid_edges=admit)
         if p is not None:
             okall = False
-            ctx.fail(R, "true-path", "parent_iter_can_recompute_now returns true on a path that never consults "
-                     "the recompute heap: the parent is recomputed immediately although a lower node (e.g. the "
-                     "bind change detector that will invalidate it) may still be pending", fn=F, span=s.span,
+            ctx.fail(R, "true-path", "parent_iter_can_recompute_now returns true on a path that never finds a height "
+                     "<= the recompute heap's minimum: the parent is recomputed immediately although a lower node "
+                     "(e.g. the bind change detector that will invalidate it) may still be pending", fn=F, span=s.span,
                      path=q.fmt_path(F, p))
     if okall:
         ctx.ok(R, "true-path")
